@@ -201,6 +201,26 @@ func (m *Mast) diffOne(
 					return nil
 				}
 				newKey := newNode.Key[0]
+				// Nodes of different levels: open only the higher one. The lower one may
+				// be one of its descendants (a subtree the two versions share), which is
+				// then skipped when the two links meet instead of being walked.
+				oldLayer, err := dc.oldMast.keyLayer(oldKey, dc.oldMast.branchFactor)
+				if err != nil {
+					return fmt.Errorf("layer: %w", err)
+				}
+				newLayer, err := m.keyLayer(newKey, m.branchFactor)
+				if err != nil {
+					return fmt.Errorf("layer: %w", err)
+				}
+				if oldLayer > newLayer {
+					dc.oldStack.pushNode(oldNode)
+					dc.newStack.push(n)
+					return nil
+				} else if oldLayer < newLayer {
+					dc.oldStack.push(o)
+					dc.newStack.pushNode(newNode)
+					return nil
+				}
 				cmp, err := m.keyOrder(oldKey, newKey)
 				if err != nil {
 					return fmt.Errorf("keyCompare: %w", err)
@@ -220,6 +240,16 @@ func (m *Mast) diffOne(
 				}
 			}
 		} else if o.considerLink != nil && n.considerLink == nil {
+			if next := dc.newStack.peek(); next != nil && next.considerLink == o.considerLink {
+				// The new version has this very subtree right behind its entry, so the
+				// entry precedes everything below the link: report it without opening
+				// the subtree, which the two versions share and which is skipped next.
+				dc.oldStack.push(o)
+				dc.curKey = n.yield.Key
+				dc.addedValue = n.yield.Value
+				dc.hasAdd = true
+				return nil
+			}
 			if !dc.oldMast.alreadyNotified(ctx, "old", dc.alreadyNotifiedOldLink, o.considerLink) {
 				dc.removedLink = o.considerLink
 			}
@@ -230,6 +260,14 @@ func (m *Mast) diffOne(
 			dc.oldStack.pushNode(oldNode)
 			dc.newStack.push(n)
 		} else if o.considerLink == nil && n.considerLink != nil {
+			if next := dc.oldStack.peek(); next != nil && next.considerLink == n.considerLink {
+				// symmetric: the old entry precedes a subtree both versions share
+				dc.newStack.push(n)
+				dc.curKey = o.yield.Key
+				dc.removedValue = o.yield.Value
+				dc.hasRemove = true
+				return nil
+			}
 			if !m.alreadyNotified(ctx, "new", dc.alreadyNotifiedNewLink, n.considerLink) {
 				dc.addedLink = n.considerLink
 			}
@@ -320,6 +358,14 @@ func (stack *iterItemStack) pop() *iterItem {
 		popped := stack.things[len(stack.things)-1]
 		stack.things = stack.things[0 : len(stack.things)-1]
 		return &popped
+	}
+	return nil
+}
+
+// peek returns the top item without removing it.
+func (stack *iterItemStack) peek() *iterItem {
+	if len(stack.things) > 0 {
+		return &stack.things[len(stack.things)-1]
 	}
 	return nil
 }
